@@ -256,6 +256,31 @@ static void discrete_families(unsigned long long& unit)
 		}
 		if(!(prevc >= 1 - 1e-9) && mu < 300) fail("discrete", "Poisson(" + mc::dec(mu) + "),k=500", "cdf_not_one_at_upper_end", "CDF = " + mc::dec(prevc));
 	}
+	// large means: every count within six standard deviations of the mean; the accuracy is that of the incomplete gamma function for
+	// shapes above 100 (1e-3, C06), the reference the long-double sum of the closed-form mass
+	for(double mu : {800.0, 1000.0, 2500.0})
+	{
+		if(!mc::mine(unit++)) continue;
+		unsigned k0 = (unsigned)(mu - 6 * std::sqrt(mu)), k1 = (unsigned)(mu + 6 * std::sqrt(mu));
+		ld sum = 0;
+		for(unsigned k = 0; k < k0; k++) sum += expl(k * logl((ld)mu) - mu - lgammal((ld)k + 1));
+		double prevc = 0;
+		for(unsigned k = k0; k <= k1; k++)
+		{
+			std::string key = "Poisson(" + mc::dec(mu) + "),k=" + std::to_string(k);
+			double m = 0, c = 0;
+			if(mc::library_exits([&]() { m = PMF_Poisson(mu, k); c = CDF_Poisson(mu, k); })) { fail("discrete", key, "terminated_process", "ended the process"); continue; }
+			g_cases++;
+			ld rm = expl(k * logl((ld)mu) - mu - lgammal((ld)k + 1));
+			sum += rm;
+			if(!(fabsl(m - rm) <= 1e-13L * rm * (k + 10) + 1e-300L)) fail("discrete", key, "pmf_vs_reference", "PMF = " + mc::dec(m) + " reference " + mc::dec((double)rm));
+			if(!(std::fabs(c - (double)sum) <= 1e-3)) fail("discrete", key, "cdf_not_sum_of_pmf", "CDF = " + mc::dec(c) + " sum of PMF = " + mc::dec((double)sum));
+			else mc::maxi("poisson_large_mean_cdf_minus_sum", std::fabs(c - (double)sum), key);
+			if(!(c >= prevc - 1e-3 && c >= 0 && c <= 1)) fail("discrete", key, "cdf_not_monotone_in_unit_interval", "CDF = " + mc::dec(c));
+			prevc = c;
+		}
+		if(!(prevc >= 1 - 1e-3)) fail("discrete", "Poisson(" + mc::dec(mu) + "),k=" + std::to_string(k1), "cdf_not_one_at_upper_end", "CDF = " + mc::dec(prevc));
+	}
 	// Inv_CDF_Poisson inverts CDF_Poisson in the mean
 	for(unsigned n : {0u, 1u, 2u, 5u, 20u, 100u, 500u})
 	{
